@@ -120,6 +120,7 @@ PROPS['C03'] = dict(layers=[D(P.p_c02_c03, P.p_c03_justified, profile=dict(fault
 PROPS['C04'] = dict(layers=[D(P.p_c04, P.p_c15)], planned=['C04_one_reply', 'C04_no_wedge', 'C04_tenure', 'C04_bound_partial'])
 PROPS['C06'] = dict(layers=[D(P.p_c04, P.p_c15, profile=dict(fatal=0.03, faults=1.5, maxclients=6), deaths=client_deaths)], planned=['C06_total over lines >= CP_LINEMAX (203)', 'C06_reap'])
 PROPS['C07'] = dict(layers=[D(P.p_c20, profile=dict(garbage=0.08, pF6=0.03, calm=0.25), deaths=device_deaths)], planned=['C07_no_abort assembled over whole runs', 'xmatch_used under ExpectBeforeSet'])
+PROPS['C08'] = dict(layers=[D(P.p_c08, P.p_c01, profile=dict(faults=0.5))], planned=['C08_refines without the nesting bound of the mirror (innerLoop 64)', 'composition over postPoll sequences with reconnects'])
 PROPS['C09'] = dict(layers=[D(P.p_c10, profile=dict(garbage=0.05))], planned=['cbuf_refines (index-level model of cbuf.c)', 'buffer capacity / overflow_drop'])
 PROPS['C10'] = dict(layers=[D(P.p_c10)], planned=['C10_head_only', 'C10_transcript', 'C10_fifo'])
 PROPS['C12'] = dict(layers=[D(P.p_c12, P.p_c04, profile=dict(pF6=0.02, calm=0.3))], planned=['C12_ioerr', 'C12_recover_partial'])
